@@ -89,6 +89,7 @@ typedef struct {
   int single_opcode;        /* >=0: build the one-instruction program for v_optab[single_opcode] */
   int single_form;          /* operand-kind form for single-opcode programs */
   const char *exclude_prefix;   /* v_excluded ("<prefix><opcode>") drops the opcode */
+  int min_insns;                /* >0: aim for at least this many instructions */
 } GenOpts;
 void gen_opts_default (GenOpts *o);
 
